@@ -30,72 +30,79 @@ var vrtModels map[string]modelFn
 
 func init() {
 	models = map[string]modelFn{
-		"strings.Split":                  mStringsSplit,
-		"strings.Replace":                mStringsReplace,
-		"strings.ReplaceAll":             func(ex *Exec, a []Val) Val { return mStringsReplace(ex, []Val{a[0], a[1], a[2], cint(-1, 64, true)}) },
-		"strings.Contains":               mStringsContains,
-		"strings.Index":                  func(ex *Exec, a []Val) Val { return goInt(ex.indexOf(a[0].(Str), a[1].(Str), 0)) },
-		"strings.IndexByte":              func(ex *Exec, a []Val) Val { return goInt(ex.indexOf(a[0].(Str), Str{B: []Int{a[1].(Int)}}, 0)) },
-		"strings.HasPrefix":              mStringsHasPrefix,
-		"strings.HasSuffix":              mStringsHasSuffix,
-		"strings.TrimSpace":              mStringsTrimSpace,
-		"strings.TrimRight":              mStringsTrimRight,
-		"strings.Join":                   mStringsJoin,
-		"(*strings.Builder).Write":       mBufWriteBytes,
-		"(*strings.Builder).WriteString": mBufWriteString,
-		"(*strings.Builder).WriteByte":   mBufWriteByte,
-		"(*strings.Builder).WriteRune":   mBufWriteRune,
-		"(*strings.Builder).String":      mBufString,
-		"(*strings.Builder).Len":         mBufLen,
-		"(*strings.Builder).Reset":       mBufReset,
-		"(*strings.Builder).Grow":        func(ex *Exec, a []Val) Val { return nil },
-		"(*bytes.Buffer).Write":          mBufWriteBytes,
-		"(*bytes.Buffer).WriteString":    mBufWriteString,
-		"(*bytes.Buffer).WriteByte":      mBufWriteByte,
-		"(*bytes.Buffer).WriteRune":      mBufWriteRune,
-		"(*bytes.Buffer).String":         mBufString,
-		"(*bytes.Buffer).Len":            mBufLen,
-		"(*bytes.Buffer).Reset":          mBufReset,
-		"fmt.Sprintf":                    func(ex *Exec, a []Val) Val { s, _ := ex.sprintf(a[0].(Str), a[1]); return s },
-		"fmt.Sprint":                     mSprint,
-		"fmt.Sprintln":                   func(ex *Exec, a []Val) Val { return concatStr(ex.sprintArgs(a[0], true), cstr("\n")) },
-		"fmt.Errorf":                     mErrorf,
-		"fmt.Print":                      func(ex *Exec, a []Val) Val { return Tuple{goInt(0), nil} },
-		"fmt.Println":                    func(ex *Exec, a []Val) Val { return Tuple{goInt(0), nil} },
-		"fmt.Printf":                     func(ex *Exec, a []Val) Val { return Tuple{goInt(0), nil} },
-		"errors.Is":                      func(ex *Exec, a []Val) Val { return Bool{C: ex.errorsIs(a[0], a[1], 0)} },
-		"errors.As":                      func(ex *Exec, a []Val) Val { return Bool{C: ex.errorsAs(a[0], a[1], 0)} },
-		"errors.Unwrap":                  mErrorsUnwrap,
-		"errors.Join":                    mErrorsJoin,
-		"(*errors.joinError).Error":      mJoinErrorError,
-		"strconv.Atoi":                   mAtoi,
-		"strconv.ParseFloat":             mParseFloat,
-		"strconv.Itoa":                   func(ex *Exec, a []Val) Val { return ex.decStr(a[0].(Int)) },
-		"(*sync.Mutex).Lock":             mLock,
-		"(*sync.Mutex).Unlock":           mUnlock,
-		"(*sync.RWMutex).Lock":           mLock,
-		"(*sync.RWMutex).Unlock":         mUnlock,
-		"(*sync.RWMutex).RLock":          func(ex *Exec, a []Val) Val { return nil },
-		"(*sync.RWMutex).RUnlock":        func(ex *Exec, a []Val) Val { return nil },
-		"context.Background":             mCtxBackground,
-		"context.TODO":                   mCtxBackground,
-		"(context.backgroundCtx).Value":  func(ex *Exec, a []Val) Val { return nil },
-		"(context.emptyCtx).Value":       func(ex *Exec, a []Val) Val { return nil },
-		"(context.todoCtx).Value":        func(ex *Exec, a []Val) Val { return nil },
-		"html/template.HTMLEscaper":      mHTMLEscaper,
-		"html/template.HTMLEscapeString": func(ex *Exec, a []Val) Val { return ex.htmlEscape(a[0].(Str)) },
-		"html.EscapeString":              func(ex *Exec, a []Val) Val { return ex.htmlEscape(a[0].(Str)) },
-		"html/template.JSEscapeString":   func(ex *Exec, a []Val) Val { return ex.jsEscape(a[0].(Str)) },
-		"text/template.JSEscapeString":   func(ex *Exec, a []Val) Val { return ex.jsEscape(a[0].(Str)) },
-		"regexp.Compile":                 mRegexpCompile,
-		"unicode.Is":                     mUnicodeIs,
-		"unicode.In":                     mUnicodeIs,
-		"sort.Slice":                     mSortSlice,
-		"sort.SliceStable":               mSortSlice,
-		"sort.Strings":                   mSortStrings,
-		"sort.Ints":                      mSortInts,
-		"(*regexp.Regexp).MatchString":   mRegexpMatchString,
-		"unicode/utf8.RuneCountInString": mRuneCount,
+		"strings.Split":                          mStringsSplit,
+		"strings.Replace":                        mStringsReplace,
+		"strings.ReplaceAll":                     func(ex *Exec, a []Val) Val { return mStringsReplace(ex, []Val{a[0], a[1], a[2], cint(-1, 64, true)}) },
+		"strings.Contains":                       mStringsContains,
+		"strings.Index":                          func(ex *Exec, a []Val) Val { return goInt(ex.indexOf(a[0].(Str), a[1].(Str), 0)) },
+		"strings.IndexByte":                      func(ex *Exec, a []Val) Val { return goInt(ex.indexOf(a[0].(Str), Str{B: []Int{a[1].(Int)}}, 0)) },
+		"strings.HasPrefix":                      mStringsHasPrefix,
+		"strings.HasSuffix":                      mStringsHasSuffix,
+		"strings.TrimSuffix":                     mStringsTrimSuffix,
+		"strings.TrimPrefix":                     mStringsTrimPrefix,
+		"strings.TrimSpace":                      mStringsTrimSpace,
+		"strings.TrimRight":                      mStringsTrimRight,
+		"strings.Join":                           mStringsJoin,
+		"(*strings.Builder).Write":               mBufWriteBytes,
+		"(*strings.Builder).WriteString":         mBufWriteString,
+		"(*strings.Builder).WriteByte":           mBufWriteByte,
+		"(*strings.Builder).WriteRune":           mBufWriteRune,
+		"(*strings.Builder).String":              mBufString,
+		"(*strings.Builder).Len":                 mBufLen,
+		"(*strings.Builder).Reset":               mBufReset,
+		"(*strings.Builder).Grow":                func(ex *Exec, a []Val) Val { return nil },
+		"(*bytes.Buffer).Write":                  mBufWriteBytes,
+		"(*bytes.Buffer).WriteString":            mBufWriteString,
+		"(*bytes.Buffer).WriteByte":              mBufWriteByte,
+		"(*bytes.Buffer).WriteRune":              mBufWriteRune,
+		"(*bytes.Buffer).String":                 mBufString,
+		"(*bytes.Buffer).Len":                    mBufLen,
+		"(*bytes.Buffer).Reset":                  mBufReset,
+		"encoding/json.Marshal":                  mJSONMarshal,
+		"encoding/json.NewEncoder":               mJSONNewEncoder,
+		"(*encoding/json.Encoder).SetEscapeHTML": mJSONSetEscapeHTML,
+		"(*encoding/json.Encoder).Encode":        mJSONEncode,
+		"encoding/json.HTMLEscape":               mJSONHTMLEscape,
+		"fmt.Sprintf":                            func(ex *Exec, a []Val) Val { s, _ := ex.sprintf(a[0].(Str), a[1]); return s },
+		"fmt.Sprint":                             mSprint,
+		"fmt.Sprintln":                           func(ex *Exec, a []Val) Val { return concatStr(ex.sprintArgs(a[0], true), cstr("\n")) },
+		"fmt.Errorf":                             mErrorf,
+		"fmt.Print":                              func(ex *Exec, a []Val) Val { return Tuple{goInt(0), nil} },
+		"fmt.Println":                            func(ex *Exec, a []Val) Val { return Tuple{goInt(0), nil} },
+		"fmt.Printf":                             func(ex *Exec, a []Val) Val { return Tuple{goInt(0), nil} },
+		"errors.Is":                              func(ex *Exec, a []Val) Val { return Bool{C: ex.errorsIs(a[0], a[1], 0)} },
+		"errors.As":                              func(ex *Exec, a []Val) Val { return Bool{C: ex.errorsAs(a[0], a[1], 0)} },
+		"errors.Unwrap":                          mErrorsUnwrap,
+		"errors.Join":                            mErrorsJoin,
+		"(*errors.joinError).Error":              mJoinErrorError,
+		"strconv.Atoi":                           mAtoi,
+		"strconv.ParseFloat":                     mParseFloat,
+		"strconv.Itoa":                           func(ex *Exec, a []Val) Val { return ex.decStr(a[0].(Int)) },
+		"(*sync.Mutex).Lock":                     mLock,
+		"(*sync.Mutex).Unlock":                   mUnlock,
+		"(*sync.RWMutex).Lock":                   mLock,
+		"(*sync.RWMutex).Unlock":                 mUnlock,
+		"(*sync.RWMutex).RLock":                  func(ex *Exec, a []Val) Val { return nil },
+		"(*sync.RWMutex).RUnlock":                func(ex *Exec, a []Val) Val { return nil },
+		"context.Background":                     mCtxBackground,
+		"context.TODO":                           mCtxBackground,
+		"(context.backgroundCtx).Value":          func(ex *Exec, a []Val) Val { return nil },
+		"(context.emptyCtx).Value":               func(ex *Exec, a []Val) Val { return nil },
+		"(context.todoCtx).Value":                func(ex *Exec, a []Val) Val { return nil },
+		"html/template.HTMLEscaper":              mHTMLEscaper,
+		"html/template.HTMLEscapeString":         func(ex *Exec, a []Val) Val { return ex.htmlEscape(a[0].(Str)) },
+		"html.EscapeString":                      func(ex *Exec, a []Val) Val { return ex.htmlEscape(a[0].(Str)) },
+		"html/template.JSEscapeString":           func(ex *Exec, a []Val) Val { return ex.jsEscape(a[0].(Str)) },
+		"text/template.JSEscapeString":           func(ex *Exec, a []Val) Val { return ex.jsEscape(a[0].(Str)) },
+		"regexp.Compile":                         mRegexpCompile,
+		"unicode.Is":                             mUnicodeIs,
+		"unicode.In":                             mUnicodeIs,
+		"sort.Slice":                             mSortSlice,
+		"sort.SliceStable":                       mSortSlice,
+		"sort.Strings":                           mSortStrings,
+		"sort.Ints":                              mSortInts,
+		"(*regexp.Regexp).MatchString":           mRegexpMatchString,
+		"unicode/utf8.RuneCountInString":         mRuneCount,
 		"unicode/utf8.DecodeRuneInString": func(ex *Exec, a []Val) Val {
 			s := a[0].(Str)
 			ex.needBytes(s, "DecodeRuneInString")
@@ -369,6 +376,54 @@ func mStringsHasSuffix(ex *Exec, args []Val) Val {
 		return Bool{C: false}
 	}
 	return ex.strEq(Str{B: s.B[len(s.B)-len(p.B):]}, p)
+}
+
+func plainBytes(bs []Int) bool {
+	for _, b := range bs {
+		if b.W != 8 {
+			return false
+		}
+	}
+	return true
+}
+
+// TrimSuffix / TrimPrefix: only the compared end of s has to be plain bytes
+func mStringsTrimSuffix(ex *Exec, args []Val) Val {
+	s, p := args[0].(Str), args[1].(Str)
+	ex.needBytes(p, "TrimSuffix")
+	if len(p.B) > len(s.B) || len(p.B) == 0 {
+		if len(p.B) > 0 {
+			ex.needBytes(s, "TrimSuffix")
+		}
+		return s
+	}
+	tail := s.B[len(s.B)-len(p.B):]
+	if !plainBytes(tail) {
+		ex.needBytes(s, "TrimSuffix")
+	}
+	if ex.branch(ex.strEq(Str{B: tail}, p)) {
+		return Str{B: s.B[:len(s.B)-len(p.B)]}
+	}
+	return s
+}
+
+func mStringsTrimPrefix(ex *Exec, args []Val) Val {
+	s, p := args[0].(Str), args[1].(Str)
+	ex.needBytes(p, "TrimPrefix")
+	if len(p.B) > len(s.B) || len(p.B) == 0 {
+		if len(p.B) > 0 {
+			ex.needBytes(s, "TrimPrefix")
+		}
+		return s
+	}
+	head := s.B[:len(p.B)]
+	if !plainBytes(head) {
+		ex.needBytes(s, "TrimPrefix")
+	}
+	if ex.branch(ex.strEq(Str{B: head}, p)) {
+		return Str{B: s.B[len(p.B):]}
+	}
+	return s
 }
 
 func (ex *Exec) byteIn(b Int, set string) bool {
